@@ -33,8 +33,9 @@ class PatternError(Exception):
 class Offsets:
     """(lineno, utf8 column) -> character offset in `source`."""
 
-    def __init__(self, source):
+    def __init__(self, source, tree=None):
         self.source = source
+        self.override = {}
         self.lines = source.split("\n")
         self.starts = []
         off = 0
@@ -42,6 +43,19 @@ class Offsets:
             self.starts.append(off)
             off += len(ln) + 1
         self.ascii = source.isascii()
+        if tree is not None:
+            # CPython reports a generator expression that is the only argument of a call with the
+            # call's parentheses included; its code is what lies between them.
+            for c in ast.walk(tree):
+                if isinstance(c, ast.Call) and len(c.args) == 1 and not c.keywords and \
+                        isinstance(c.args[0], ast.GeneratorExp):
+                    g = c.args[0]
+                    s, e = self.region(g)
+                    if (g.end_lineno, g.end_col_offset) == (c.end_lineno, c.end_col_offset) and \
+                            source[s] == "(" and source[e - 1] == ")":
+                        inner = source[s + 1:e - 1]
+                        lead = len(inner) - len(inner.lstrip())
+                        self.override[id(g)] = (s + 1 + lead, s + 1 + len(inner.rstrip()))
 
     def at(self, lineno, col):
         line = self.lines[lineno - 1]
@@ -50,6 +64,8 @@ class Offsets:
         return self.starts[lineno - 1] + col
 
     def region(self, node):
+        if id(node) in self.override:
+            return self.override[id(node)]
         return (self.at(node.lineno, node.col_offset), self.at(node.end_lineno, node.end_col_offset))
 
     def text(self, node):
